@@ -132,7 +132,7 @@ func c11Generate(c *mon.Ctx) {
 	strideT := c.N(2, 1)
 
 	for ti := int(c.Seed % uint64(strideT)); ti < len(targets); ti += strideT {
-		for _, which := range []string{"u2", "tv1", "tv3", "tv6"} {
+		for _, which := range []string{"u2", "tv1", "tv2", "tv3", "tv6"} {
 			if u, ok := c11Steer(which, targets[ti]); ok {
 				s, w := hx(u), which
 				c.Structured(func() any { return &c11Case{Kind: "sswu", U: s, Class: "steered:" + w} })
@@ -143,6 +143,22 @@ func c11Generate(c *mon.Ctx) {
 			if x, ok := c11Steer(which, targets[ti]); ok {
 				s, w := hx(x), which
 				c.Structured(func() any { return &c11Case{Kind: "iso", X: s, Odd: uint(ti % 2), Class: "steered:" + w} })
+			}
+		}
+	}
+
+	for _, t := range gen.HalfZeroTargets(p) {
+		for _, which := range []string{"tv2", "tv1", "u2"} {
+			if u, ok := c11Steer(which, t); ok {
+				s, w := hx(u), which
+				c.Structured(func() any { return &c11Case{Kind: "sswu", U: s, Class: "steered:" + w} })
+			}
+		}
+
+		for _, which := range []string{"x2", "x3"} {
+			if x, ok := c11Steer(which, t); ok {
+				s, w := hx(x), which
+				c.Structured(func() any { return &c11Case{Kind: "iso", X: s, Odd: 0, Class: "steered:" + w} })
 			}
 		}
 	}
@@ -418,6 +434,8 @@ func c11Steer(which string, t *big.Int) (*big.Int, bool) {
 		return oracle.FSqrt(v)
 	case "tv1":
 		return oracle.FSqrt(oracle.FMul(v, oracle.FInv0(oracle.Z)))
+	case "tv2":
+		return fromTv2(v)
 	case "tv3":
 		return fromTv2(oracle.FSub(v, big.NewInt(1)))
 	case "tv6":
